@@ -2,6 +2,8 @@ import Driver.Common
 import QlibcModel.HashTbl.Model
 import QlibcModel.HashTbl.Fault
 import QlibcModel.HashTbl.Args
+import QlibcModel.HashTbl.Alias
+import Driver.Murmur
 open Qlibc Qlibc.HashTbl Qlibc.MapFault
 
 namespace Driver.HashTbl
@@ -120,11 +122,27 @@ def step (st0 : St) (ws : List String) : St × String :=
         ("walk" ++ String.join (cs.map fun c => " " ++ showCur c) ++ " false ENOENT")
     | .error f => fin st (faultStr f)
   -- the documented-invalid calls: the model's argument checks decide results and state
+  -- arguments pointing into the table's own storage: the sub-range of the OLD value / name is stored
+  | ["putalias", k, h, mode, off, ln] => match arg k, hash32 h, off.toNat?, ln.toNat? with
+    | .ok k, some h, some off, some ln =>
+      match aliasValue t k h (mode == "1" || mode == "3") off ln with
+      | none => fin st "skip"
+      | some v => putRes (putF plan t k h v)
+    | _, _, _, _ => fin st "bad-op"
+  | ["putkeyalias", k, h, off, d] => match arg k, hash32 h, off.toNat?, arg d with
+    | .ok k, some h, some off, .ok d =>
+      match aliasKey t k h off with
+      | none => fin st "skip"
+      | some k' => putRes (putF plan t k' (Driver.Murmur.murmur3_32 k') d)
+    | _, _, _, _ => fin st "bad-op"
+  | ["debug"] => match debugText t with
+    | .ok b => fin st s!"debug 1 {hx b}"
+    | .error f => fin st (faultStr f)
   | ["inv"] =>
     let r := runCalls invBattery t
     fin { st with t := r.1 }
       ("inv" ++ String.join (r.2.map fun (b, e) => s!" {if b then 1 else 0}:{e.name}") ++ " sz=99")
-  | ["lock"] => fin st s!"locked size {size t}"
+  | ["lock"] => fin st (s!"locked size {size t} nested=ENOENT" ++ (if st.ts then " held=1 after=0" else " nolock"))
   | ["end"] => fin { t := init 0, cur := Cursor.zero, curValid := true, ts := false } "end live=0 bad=0"
   | _ => fin st "bad-op"
 
